@@ -44,7 +44,12 @@ def run(ctx):
         if o != m:
             # the model is the executable statement of "conforms": a text the model accepts conforms, one it rejects does not
             if o.startswith("internal"):
-                continue   # C07's observable
+                # "Every non-conforming text is rejected with a ZConfig configuration error": anything else that escapes
+                # (also C07's observable) is not such a rejection
+                if m == "reject":
+                    ctx.violate("a non-conforming text is not rejected with a configuration error: the load ends with %s" % (c.out[1],),
+                                dict(c.replay(), impl=c.out, model=c.model[:6]), signature="C01:internal-instead-of-rejection:%s" % c.out[1])
+                continue
             bad.append(c)
             ctx.disagree("load", c.replay(), c.out, c.model[:6])
     _imported_types(ctx)
